@@ -24,16 +24,21 @@ import (
 	"testing"
 	"testing/cryptotest"
 
+	"github.com/tink-crypto/tink-go/v2/aead"
 	"github.com/tink-crypto/tink-go/v2/hybrid/ecies"
 	"github.com/tink-crypto/tink-go/v2/hybrid/hpke"
 	"github.com/tink-crypto/tink-go/v2/internal/internalapi"
 	"github.com/tink-crypto/tink-go/v2/key"
 	"github.com/tink-crypto/tink-go/v2/keyset"
+	tinkpb "github.com/tink-crypto/tink-go/v2/proto/tink_go_proto"
 	"github.com/tink-crypto/tink-go/v2/signature/slhdsa"
 	subtlerandom "github.com/tink-crypto/tink-go/v2/subtle/random"
+	"github.com/tink-crypto/tink-go/v2/testing/fakekms"
 	"github.com/tink-crypto/tink-go/v2/verifsim/catalog"
 	"github.com/tink-crypto/tink-go/v2/verifsim/core"
+	"github.com/tink-crypto/tink-go/v2/verifsim/kmsfake"
 	"github.com/tink-crypto/tink-go/v2/verifsim/simrng"
+	"github.com/tink-crypto/tink-go/v2/verifsim/stubkm"
 	"pgregory.net/rapid"
 )
 
@@ -48,12 +53,22 @@ var outerT *testing.T
 
 func TestMain(m *testing.M) {
 	requireCustomRand()
+	stubkm.Register()
+	kmsfake.Register()
+	func() {
+		defer simrng.Install(simrng.New(0x6b656b))()
+		uri, err := fakekms.NewKeyURI()
+		if err != nil {
+			panic(err)
+		}
+		fakeKEKURI = uri
+	}()
 	core.DeclareFaults("rng-short-read", "maybe-read-byte", "id-collision-scripted", "id-collision-deleted-scripted", "forced-scalar-rejection")
 	core.DeclareProbes("redraw-on-collision", "scripted-fresh-id", "raw-key-id-draw", "same-message-signed-twice", "second-primitive-same-key",
 		"second-handle-same-key", "subtle-constructor", "writer-repeat-on-primitive", "interleaved-keys", "full-sweep", "edge-position",
 		"field-delivered-by-short-reads", "ecdh-recompute-x25519", "ecdh-recompute-nist", "p521-masked-byte-flipped", "mlkem-consecutive",
 		"xwing-both-halves", "ecies-dem-iv", "ecies-compressed-point", "composite-two-draws", "dead-position-swept", "keygen-symmetric-copy",
-		"keygen-asymmetric-copy", "keygen-asymmetric-fn", "keygen-nonrandomized-type", "pooled-key", "jwt-signature", "id-spread-batch", "keyid-spread-judged", "caller-appends-to-random-bytes", "repeated-signature-direct",
+		"keygen-asymmetric-copy", "keygen-asymmetric-fn", "keygen-nonrandomized-type", "pooled-key", "jwt-signature", "id-spread-batch", "keyid-spread-judged", "caller-appends-to-random-bytes", "repeated-signature-direct", "manager-add-legacy-key-manager", "envelope-with-context",
 		"kms-envelope-fresh-dek", "manager-delete", "manager-setprimary", "manager-disable-enable", "add-after-delete", "mldsa-prehash-signer", "output-verified")
 	if core.Thorough() {
 		core.DeclareProbes("rsa-primes-located-in-stream", "slhdsa-keygen-seeds-copied", "cost2-produce")
@@ -1413,9 +1428,79 @@ func (w *world) slowSignerRun() {
 // ---------------------------------------------------------------------------
 // manager with scripted collisions
 
+// legacyTemplates: key templates whose key type has no parameters parser, so that
+// Manager.Add takes its legacy-registry path (registry.NewKeyData + key serialization).
+type legacyTemplate struct {
+	name, typ string
+	f         func() *tinkpb.KeyTemplate
+}
+
+var legacyList []legacyTemplate
+
+func legacyTemplates() []legacyTemplate {
+	if legacyList != nil {
+		return legacyList
+	}
+	prefixes := []tinkpb.OutputPrefixType{tinkpb.OutputPrefixType_RAW, tinkpb.OutputPrefixType_TINK, tinkpb.OutputPrefixType_LEGACY, tinkpb.OutputPrefixType_CRUNCHY}
+	for _, st := range []struct{ typ, url string }{{"stub-mac", stubkm.MACURL}, {"stub-aead", stubkm.AEADURL}} {
+		for _, pf := range prefixes {
+			legacyList = append(legacyList, legacyTemplate{st.typ + "/" + pf.String(), st.typ, func() *tinkpb.KeyTemplate {
+				return &tinkpb.KeyTemplate{TypeUrl: st.url, OutputPrefixType: pf}
+			}})
+		}
+	}
+	for _, pf := range prefixes[:2] {
+		legacyList = append(legacyList, legacyTemplate{"kms-envelope/" + pf.String(), "kms-envelope", func() *tinkpb.KeyTemplate {
+			kt, err := aead.CreateKMSEnvelopeAEADKeyTemplate(fakeKEKURI, aead.AES128GCMKeyTemplate())
+			if err != nil {
+				panic("harness: " + err.Error())
+			}
+			kt.OutputPrefixType = pf
+			return kt
+		}})
+	}
+	return legacyList
+}
+
+// fakeKEKURI: a fake-kms key URI (fixed per process, drawn under a throw-away RNG in TestMain).
+var fakeKEKURI string
+
 func (w *world) mgrAdd() {
 	t, r, g := w.t, w.r, w.g
-	e := cheapSym[rapid.IntRange(0, len(cheapSym)-1).Draw(t, "mgrEntry")]
+	// what is added: a key type of the catalog (new registry: parameters → key), or a
+	// key type that only has a legacy registry.KeyManager (Manager.Add's fallback
+	// path: stub key managers, the KMS-envelope AEAD key type), with any prefix type
+	var name, eloc string
+	var add func(m *keyset.Manager) (uint32, error)
+	if rapid.SampledFrom([]string{"catalog", "catalog", "legacy"}).Draw(t, "mgrKind") == "legacy" {
+		lt := legacyTemplates()[rapid.IntRange(0, len(legacyTemplates())-1).Draw(t, "legacyTemplate")]
+		name, eloc = lt.name, "legacy/"+lt.typ
+		add = func(m *keyset.Manager) (uint32, error) { return m.Add(lt.f()) }
+		r.Probe("manager-add-legacy-key-manager")
+	} else {
+		e := cheapSym[rapid.IntRange(0, len(cheapSym)-1).Draw(t, "mgrEntry")]
+		name, eloc = name, eloc
+		add = func(m *keyset.Manager) (uint32, error) { return m.AddNewKeyFromParameters(e.Params) }
+	}
+	scratch := func() (uint32, key.Key, error) { // the same add on a scratch manager
+		m := keyset.NewManager()
+		id, err := add(m)
+		if err != nil {
+			return 0, nil, err
+		}
+		if err := m.SetPrimary(id); err != nil {
+			return 0, nil, err
+		}
+		h, err := m.Handle()
+		if err != nil {
+			return 0, nil, err
+		}
+		ent, err := h.Entry(0)
+		if err != nil {
+			return 0, nil, err
+		}
+		return id, ent.Key(), nil
+	}
 	var vals []uint32
 	if len(w.mgrIDs) > 0 {
 		// IDs this manager handed out earlier: live ones and ones deleted since
@@ -1446,11 +1531,11 @@ func (w *world) mgrAdd() {
 	g.Script4(vals...)
 	var id uint32
 	var err error
-	wn := w.bracket("keyset.Manager.Add", func() { id, err = w.mgr.AddNewKeyFromParameters(e.Params) })
+	wn := w.bracket("keyset.Manager.Add", func() { id, err = add(w.mgr) })
 	g.ClearScript()
-	r.Logf("manager.Add(%s) scripted=%08x -> id=%08x %s (scripted reads served: %d, stream bytes: %d)", e.Name, vals, id, describe(err), wn.scripted, len(wn.data))
+	r.Logf("manager.Add(%s) scripted=%08x -> id=%08x %s (scripted reads served: %d, stream bytes: %d)", name, vals, id, describe(err), wn.scripted, len(wn.data))
 	if err != nil {
-		r.Violation("C20/call-failed:keyset.Manager.Add", fmt.Sprintf("%s: %v", e.Name, err))
+		r.Violation("C20/call-failed:keyset.Manager.Add", fmt.Sprintf("%s: %v", name, err))
 		return
 	}
 	// The scripted collisions only reach an implementation that draws IDs with
@@ -1518,7 +1603,7 @@ func (w *world) mgrAdd() {
 		// not a copy of four issued bytes: a function of the first request?
 		var fine bool
 		idFrom, idTo, fine = w.explainID(wn, id, func() (uint32, bool) {
-			id2, k2, err2 := newKeyVia(e) // the same ID draw on a scratch manager
+			id2, k2, err2 := scratch() // the same ID draw on a scratch manager
 			return id2, err2 == nil && k2 != nil
 		})
 		if !fine {
@@ -1563,11 +1648,14 @@ func (w *world) mgrAdd() {
 	for _, s := range secrets {
 		cat = append(cat, s.data...)
 	}
-	if !copiedDisjoint(without(wn.data, idFrom, idTo), secrets) {
-		if !w.explainSecrets(wn, entryLoc(e), secrets, cat, "C20/key-not-from-rng:"+entryLoc(e),
-			fmt.Sprintf("%s added to a manager: key material is not made of disjoint ranges of the bytes issued during the call", e.Name),
+	if len(secrets) == 0 {
+		// a legacy key (opaque proto key data) exposes no secret accessor: only its ID is judged
+		r.Count("manager-key-without-secret-accessor", 1)
+	} else if !copiedDisjoint(without(wn.data, idFrom, idTo), secrets) {
+		if !w.explainSecrets(wn, eloc, secrets, cat, "C20/key-not-from-rng:"+eloc,
+			fmt.Sprintf("%s added to a manager: key material is not made of disjoint ranges of the bytes issued during the call", name),
 			func() []byte {
-				_, k2, err2 := newKeyVia(e) // the same key-creation path on a scratch manager
+				_, k2, err2 := scratch() // the same key-creation path on a scratch manager
 				if err2 != nil || k2 == nil {
 					return nil
 				}
@@ -1586,7 +1674,7 @@ func (w *world) mgrAdd() {
 	}
 	if len(cat) > 0 {
 		if w.keyMat[string(cat)] {
-			r.Violation("C20/repeat:"+entryLoc(e)+".key", fmt.Sprintf("%s: two generated keys carry the same material", e.Name))
+			r.Violation("C20/repeat:"+eloc+".key", fmt.Sprintf("%s: two generated keys carry the same material", name))
 		}
 		w.keyMat[string(cat)] = true
 		w.oracles["keycopy"] = true
@@ -1761,7 +1849,11 @@ func (w *world) newPrim(ks *keyState) {
 			tpl := rapid.IntRange(0, len(dekTemplates)-1).Draw(t, "dekTemplate")
 			var p *prim
 			var err error
-			w.bracket(ks.loc+".envelope-constructor", func() { p, err = envelopePrim(ks.k, ks.handles[0], tpl) })
+			withCtx := rapid.Bool().Draw(t, "envelopeWithContext")
+			if withCtx {
+				w.r.Probe("envelope-with-context")
+			}
+			w.bracket(ks.loc+".envelope-constructor", func() { p, err = envelopePrim(ks.k, ks.handles[0], tpl, withCtx) })
 			if err != nil {
 				t.Fatalf("harness: envelope AEAD over %s: %v", ks.e.Name, err)
 			}
@@ -1904,7 +1996,7 @@ func (w *world) produce(ki int) {
 		if !ok {
 			t.Fatalf("harness: no IV layout for %T", ks.e.Params)
 		}
-		if p.kind == "envelope" {
+		if strings.HasPrefix(p.kind, "envelope") {
 			w.checkEnvelope(ks, p, loc, wn, orig, n, msg, aad)
 			return
 		}
